@@ -211,8 +211,13 @@ impl<F: FixedChannelRegion> RegionHandler for FixedChannelPlan<F> {
                     };
                     (dr, channel)
                 // Alternatively, we will ask JoinChannel logic to determine a channel from the
-                // subband that  the join succeeded on.
-                } else if let Some(channel) = self.join_channels.first_data_channel(rng) {
+                // subband that  the join succeeded on. That channel is a 125 kHz one, so it is
+                // only usable with a 125 kHz datarate and if the channel mask enables it.
+                } else if let Some(channel) = self.join_channels.first_data_channel(rng)
+                    && F::datarates()[datarate as usize].as_ref().unwrap().bandwidth
+                        != Bandwidth::_500KHz
+                    && self.channel_mask.is_enabled(channel.into()).unwrap_or(false)
+                {
                     (datarate, channel)
                 } else {
                     // For the data frame, the datarate impacts which channel sets we can choose
